@@ -111,7 +111,7 @@ func C19(c *fw.Ctx) {
 		{"runtime", model.KwBreak + ";"}, {"runtime", model.KwReturn + " 1;"}, {"runtime", model.BiLen + "(1);"}, {"runtime", model.BiSqrt + "();"}, {"runtime", "({}).k;"},
 		{"runtime", model.KwVar + " d = 1; " + model.KwVar + " d = 2;"},
 	}
-	wrapKinds := []string{"top", "block", "function", "if", "loop"}
+	wrapKinds := []string{"top", "block", "function", "if", "loop", "while-true", "for-bare"}
 	for _, f := range faults {
 		for pos := 0; pos < 3; pos++ {
 			for _, wk := range wrapKinds {
@@ -129,8 +129,12 @@ func C19(c *fw.Ctx) {
 						body = model.KwIf + " (" + model.KwTrue + ") {\n" + f.text + "\n}"
 					case "loop":
 						body = model.KwFor + " (" + model.KwVar + " i = 0; i < 2; i = i + 1) {\n" + f.text + "\n}"
+					case "while-true":
+						body = model.KwWhile + " (" + model.KwTrue + ") {\n" + f.text + "\n" + model.KwBreak + ";\n}"
+					case "for-bare":
+						body = model.KwFun + " lf() {\n" + model.KwFor + " (;;) {\n" + f.text + "\n" + model.KwReturn + " 1;\n}\n}\nlf();"
 					}
-					if (f.text == model.KwBreak+";" || strings.HasPrefix(f.text, model.KwReturn)) && (wk == "function" || wk == "loop") {
+					if (f.text == model.KwBreak+";" || strings.HasPrefix(f.text, model.KwReturn)) && (wk == "function" || wk == "loop" || wk == "while-true" || wk == "for-bare") {
 						continue // not stray there (break/continue crossing a function boundary is unspecified)
 					}
 					if f.class == "lexical" && (strings.HasPrefix(f.text, "\"open") || strings.HasPrefix(f.text, "/*")) && wk != "top" {
